@@ -321,6 +321,10 @@ fn one<T: JsonSchema + DeserializeOwned + Send + Sync + 'static>(name: &str, col
         "in": normalise(&in_schema), "defs_in": normalise_defs(Some(&defs_in)),
         "out": normalise(&out_schema), "defs_out": normalise_defs(Some(&defs_out)),
         "probes": tagged, "raw_in": in_schema.to_string(), "raw_out": out_schema.to_string()}));
+    // Adequacy is demanded for keyword occurrences up to a structural depth (deeper occurrences are the
+    // top levels of other corpus types, where they are assessed); deeper mutants are counted, not judged.
+    let max_depth: usize = std::env::var("VERIF_ADEQUACY_DEPTH").ok().and_then(|s| s.parse().ok()).unwrap_or(3);
+    let depth_of = |what: &str| what.split('/').filter(|c| !c.is_empty() && *c != "properties" && *c != "items").count();
     let adeq: usize = std::env::var("VERIF_ADEQUACY").ok().and_then(|s| s.parse().ok()).unwrap_or(8);
     // probe adequacy: every evaluated keyword occurrence of the input schema must matter to some probe
     let mut ms = vec![];
@@ -329,7 +333,7 @@ fn one<T: JsonSchema + DeserializeOwned + Send + Sync + 'static>(name: &str, col
         let mut sub = vec![];
         mutants(dschema, &format!("#{}", dname), &mut sub);
         // a mutated definition: carried as a replaced definition list
-        for (what, m) in sub.into_iter().take(adeq / 3 + 1) {
+        for (what, m) in sub.into_iter().filter(|(w, _)| depth_of(w) <= max_depth).take(adeq / 3 + 1) {
             let mut d2 = defs_in.clone();
             d2.insert(dname.clone(), m);
             col.lines.push(json!({"ev": "adequacy", "name": name, "what": what,
@@ -337,7 +341,12 @@ fn one<T: JsonSchema + DeserializeOwned + Send + Sync + 'static>(name: &str, col
                 "mut": normalise(&in_schema), "defs_mut": normalise_defs(Some(&d2)), "probes": tagged}));
         }
     }
-    for (what, m) in ms.into_iter().take(adeq) {
+    let deep = ms.iter().filter(|(w, _)| depth_of(w) > max_depth).count();
+    if deep > 0 {
+        col.lines.push(json!({"ev": "unsupported", "name": name, "explicit": true,
+            "msg": format!("{} keyword occurrences deeper than {} levels not judged for probe adequacy here", deep, max_depth)}));
+    }
+    for (what, m) in ms.into_iter().filter(|(w, _)| depth_of(w) <= max_depth).take(adeq) {
         col.lines.push(json!({"ev": "adequacy", "name": name, "what": what,
             "in": normalise(&in_schema), "defs_in": normalise_defs(Some(&defs_in)),
             "mut": normalise(&m), "defs_mut": normalise_defs(Some(&defs_in)), "probes": tagged}));
